@@ -134,9 +134,9 @@ def parser_half(h, res, rng, tier, py_scan):
         st["accepted_with_comment_pairs"] += 1 if tc else 0
         ac = dump_comments(o)
         st["ast_comments"] += len(ac)
-        if "S" not in flags:
+        if "S" not in flags or "V" not in flags:
             shape_bad.append(i)
-        if flags == "SN" and tc != pc:
+        if flags == "SNV" and tc != pc:
             thm_bad.append(i)
         # the property on the implementation alone: comments of the AST the real parser built = comment pairs
         if ac != tc:
@@ -172,8 +172,9 @@ def parser_half(h, res, rng, tier, py_scan):
                        "first: text=%r model=%s impl=%s pairs=%s" % (texts[i], (model[i] or "")[:700], (impl[i] or "")[:500],
                                                                       (implc[i] or "")[:200]))
     if shape_bad:
-        res.tie_broken("C09P: PegComments.shape_ok (the well-formedness hypothesis of C09_parse_keeps_comments) is false on a "
-                       "tree the PEG interpreter produced: the grammar no longer has the assumed shape",
+        res.tie_broken("C09P: PegComments.forest_shape_ok / forest_view_ok (the well-formedness hypotheses of "
+                       "C09_parse_keeps_comments) is false on a tree the PEG interpreter produced: the grammar no longer has the "
+                       "assumed shape",
                        "first: text=%r" % texts[shape_bad[0]])
     if thm_bad:
         res.tie_broken("C09P: model instance contradicts C09_parse_keeps_comments (stale .vo?)", repr(texts[thm_bad[0]]))
